@@ -109,6 +109,11 @@ class PairDomain(Domain):
 
 def run(loader, R, tier):
     prog = loader()
+    from selib import signpred
+    R.rule("R29.0", "is_negative/is_zero/is_positive of Integer, Rational, "
+                   "RealDouble are the comparisons of the value with 0 "
+                   "(grounds the trusted atom table)")
+    signpred.ground(prog, R, "R29.0")
     R.exhaustive = True
     R.explanation = (
         "Eq, Ne, Lt, Le, Gt, Ge are interpreted (engine E3) over the "
